@@ -8,6 +8,8 @@ yaserde on runtime values and is not decided."""
 from rules import c02 as C02
 from rules import c03 as C03
 from rules import templates as T
+from engine.rulekit import og
+from engine.rulekit import hir as Hh
 
 # XSD builtins with a bounded value space -> (min, max) / named IEEE type
 XSD_RANGE = {
@@ -22,6 +24,73 @@ RUST_RANGE = {
 EXACT = {"boolean": ("bool",), "float": ("f32", "f64"), "double": ("f64",)}
 TEXTUAL = ("string", "normalizedString", "base64Binary", "hexBinary", "anyURI", "date", "dateTime", "time", "language", "duration")
 UNBOUNDED = ("integer", "negativeInteger", "nonNegativeInteger", "nonPositiveInteger", "positiveInteger", "decimal")
+
+
+XML_READS = ("attribute", "uri", "namespaces", "default_namespace", "lookup_namespace_uri", "tag_name", "namespace", "next", "children",
+             "descendants", "filter", "find", "parent", "root_element", "root", "iter::filter", "iter::map", "iter::find", "ok_or", "ok_or_else",
+             "Some", "Ok", "unwrap_or_default")
+
+
+def rule_namespace_verbatim(ck, F, rule="R6"):
+    """XML namespace names are compared character by character (Namespaces in XML §2.3): an instance document that is valid for the
+    schema carries the schema's spelling. A generated type that declares a normalised spelling (lower-cased host, added slash,
+    trimmed) does not match such a document. Decided by provenance: at every place a Namespace value is built, its name is the
+    function's text parameter through identity steps only, and the callers hand in what they read from the XML, unchanged."""
+    CE = og.CallExpander(F)
+    sites = [x for x in og.field_summaries(F, "model::Namespace")
+             if " as std::clone::Clone>" not in x[0] and "tests" not in x[0] and " as std::default::Default>" not in x[0]]
+    ck.floor(rule, "Namespace construction sites", len(sites), 2)
+    builders = {}
+    for (fn, site, ctx, fields, base) in sites:
+        v = CE.expand(fields.get("namespace", ("unknown", "?")))
+        names, root = og.spine(v)
+        short = fn.rsplit("::", 1)[-1]
+        if names or root[0] not in ("param", "field", "elem", "payload"):
+            ck.violation(rule, f"name-not-verbatim:{short}", site,
+                         f"{short}: the namespace name stored is {og.nf_str(v)[:100]} — computed by {names or [root[0]]}, not the text that was read: the "
+                         f"generated `namespaces = {{..}}` then differs from the schema's namespace name and valid instances are rejected", fn=short)
+        else:
+            ck.ok(rule, f"name-verbatim:{short}", site, f"{short}: the namespace name is stored as it was handed in", fn=short)
+            if root[0] == "param":
+                builders.setdefault(fn, set()).add(root[1])
+    # the callers of those functions: the text they pass for that parameter is what they read
+    W = og.EnvWalker(F)
+    n_calls = 0
+    for b in F.lib.bodies:
+        if b.get("hir") is None or b.get("closure") or "yaserde_tests" in b["path"] or "::tests" in b["path"]:
+            continue
+
+        def cb(e, env, ctx, caller=b["path"]):
+            nonlocal n_calls
+            if e.get("k") not in ("Call", "MethodCall"):
+                return
+            cp = Hh.callee_path(e)
+            if cp not in builders or cp == caller:
+                return
+            cbody = F.lib.body(cp)
+            try:
+                pnames = [[n for _i, n in Hh.pat_bindings(p)] for p in Hh.norm_body(cbody)["params"]]
+            except og.Unrecognised:
+                return
+            args = ([e["recv"]] if e.get("k") == "MethodCall" else []) + list(e["args"])
+            for names_, a in zip(pnames, args):
+                if len(names_) == 1 and names_[0] in builders[cp]:
+                    n_calls += 1
+                    v = CE.expand(W.NF.nf(a, env))
+                    steps, root = og.spine(v)
+                    extra = [s_ for s_ in steps if s_ not in XML_READS]
+                    short = caller.rsplit("::", 1)[-1]
+                    if extra:
+                        ck.violation(rule, f"name-not-verbatim:{short}->{cp.rsplit('::', 1)[-1]}", Hh.sp(e),
+                                     f"{short} hands {og.nf_str(v)[:100]} to {cp.rsplit('::', 1)[-1]} as the namespace name: it went through {extra}, "
+                                     f"so it is not the spelling the schema uses", fn=short)
+                    else:
+                        ck.ok(rule, f"name-verbatim:{short}->{cp.rsplit('::', 1)[-1]}", Hh.sp(e), "the namespace name is handed on as it was read", fn=short)
+        try:
+            W.walk_fn(b["path"], cb)
+        except og.Unrecognised:
+            continue
+    ck.floor(rule, "calls that hand a namespace name to a registry function", n_calls, 2)
 
 
 def run(ck, F):
@@ -39,7 +108,10 @@ def run(ck, F):
     ck.rule("R2", "repeatable => Vec: every row of the occurrence table with maxOccurs unbounded or >1 (own or parent) is emitted as Vec<T>")
     ck.rule("R3", "every prefix a struct's members can carry is declared by the struct (undeclared prefixes do not deserialize)")
     ck.rule("R5", "simple types carry their text: text=true on String / flatten on a user type")
+    ck.rule("R6", "namespace names are carried verbatim: the name a generated type declares is the text of the schema's "
+                  "targetNamespace / xmlns declaration, not a trimmed, re-cased or otherwise normalised spelling of it")
     X = T.extractor(F)
+    rule_namespace_verbatim(ck, F)
     table, fall, site = C02.builtin_table(F)
     if table is None:
         ck.undecided("R1", "table", "-", "builtin table not found")
